@@ -427,6 +427,27 @@ func genFreeStates(r *common.Rand, rounds int, emit func(string)) {
 	}
 }
 
+// ---- release clause: an allocator that released its id is released again (deferred shutdown
+// clean-up) while other nodes claim; every schedule of length 6 over three nodes, every store kind.
+func genDoubleRelease(emit func(string)) {
+	stores := []string{"dbl", "mem", "hyb", "hyr", "red"}
+	progs := [][]thrSpec{
+		{{0, []string{"g 9 0", "o", "o"}}, {1, []string{"g 9 0"}}, {2, []string{"g 9 0"}}},
+		{{0, []string{"g 9 0", "o", "o", "g 9 0"}}, {1, []string{"g 9 0", "o", "o"}}, {2, []string{"g 9 0", "w"}}},
+	}
+	for pi, pr := range progs {
+		for m := 0; m < 729; m++ {
+			var sch [][2]int64
+			x := m
+			for j := 0; j < 6; j++ {
+				sch = append(sch, [2]int64{0, int64(x % 3)})
+				x /= 3
+			}
+			emit(mkCase(false, stores[(m+pi)%len(stores)], true, defTTL, nil, pr, sch))
+		}
+	}
+}
+
 // ---- E: node id allocation, renewal, release, lease expiry
 func genNode(r *common.Rand, n int, emit func(string)) {
 	lock := node.NodeIDLockTTL.Milliseconds()
@@ -553,6 +574,7 @@ func generate(r *common.Rand, tier string, emit func(string)) {
 	}
 	genExhaustive(emit)
 	genFaultExhaustive(emit)
+	genDoubleRelease(emit)
 	real := []string{"dbl", "dbl", "dbl", "mem", "hyb", "red", "hyr"}
 	genRandom(r.Fork(), 900*scale, emit, real, true, 4, false, "")
 	genExhaustion(r.Fork(), 16*scale, emit)
